@@ -1,7 +1,7 @@
 (* C10 -- RDH sanity and running checks implement the documented rules exactly.
    Property theorems only. *)
 From Coq Require Import List NArith.
-From FP Require Import Model.Base Model.Rdh Model.RdhChecks Spec.RdhRules Proofs.RdhFacts Proofs.C10_proofs.
+From FP Require Import Model.Base Model.Rdh Model.RdhChecks Spec.RdhRules Proofs.RdhFacts Proofs.C10_proofs Model.CdpRunning Model.Scanner Model.Link Proofs.C10_run.
 Import ListNotations.
 Open Scope N_scope.
 
@@ -30,7 +30,18 @@ Theorem C10_running_iff : forall hist b,
    running_violation hist b = true).
 Proof. exact c10_running_iff. Qed.
 
+(* A VALIDATOR'S WHOLE PASS (`check sanity` without a target; the packets of one link in arrival order, any number, any contents, each
+   header decoded from its 64 bytes): the pass reports EXACTLY the RDHs that violate a documented sanity condition relative to the
+   header id of the link's first RDH (or the configured version) -- for each of them one [E10] at the packet's own offset, for the
+   others nothing, in packet order, and nothing else *)
+Theorem C10_sanity_pass_exact : forall custom h0 hs, Forall (fun h => rdh_bytes_ok (hp_bytes h)) (h0 :: hs) ->
+  let first := match custom with Some v => v | None => h_header_id (hp_bytes h0) end in
+  exists per, run_validator (sanity_cfg custom) (map to_cdp (h0 :: hs)) = Ok (concat per) /\
+    Forall2 (fun h ms => (violates first h = false /\ ms = []) \/ (violates first h = true /\ exists m, ms = [m] /\ is_e10_at (hp_off h) m)) (h0 :: hs) per.
+Proof. exact c10_pass. Qed.
+
 Print Assumptions C10_sanity_iff.
 Print Assumptions C10_sanity_first.
 Print Assumptions C10_sanity_latch_stable.
 Print Assumptions C10_running_iff.
+Print Assumptions C10_sanity_pass_exact.
